@@ -34,7 +34,8 @@ ASSUMPTIONS = [
 OUTSIDE = [
     "requests arriving when every recording with a response has been served (the addon treats replay as finished and forwards them whatever "
     "server_replay_extra says) — treated as 'replay no longer active'",
-    "multipart/form-data bodies, HTTPS scheme, Host-header/host disagreement, loading from files (io.read_flows_from_paths)",
+    "multipart/form-data bodies, HTTPS scheme, Host-header/host disagreement, loading from files (io.read_flows_from_paths), "
+    "the deprecated server_replay_kill_extra flag (server_replay_nopop is exercised in the thorough tier)",
     "histories / recorded sets larger than the bound",
 ]
 ENCODED = [
@@ -282,7 +283,7 @@ OPS_QUICK = ["req:base", "req:ign-param", "req:xkey", "toggle:server_replay_igno
 REC_FORM = [("form5", True), ("form6", True), ("raw5", True), ("form5", False)]
 OPS_FORM = ["req:form5", "req:form6", "req:raw5", "toggle:server_replay_ignore_payload_params", "toggle:server_replay_ignore_content",
             "reuse:server_replay_reuse", "extra:kill"]
-REC_ADDR = [("base", True), ("host-b", True), ("port-8080", True), ("query-order", True), ("host-b", False)]
+REC_ADDR = [("base", True), ("host-b", True), ("port-8080", True), ("query-order", True)]
 OPS_ADDR = ["req:base", "req:host-b", "req:port-8080", "req:query-order", "toggle:server_replay_ignore_host", "toggle:server_replay_ignore_port",
             "reuse:server_replay_nopop", "extra:204"]
 
